@@ -285,6 +285,7 @@ def run(ctx):
     ctx.add_trace_verdict('LightStackTrace', v, len(traces))
     ctx.coverage['executions'] = len(jobs)
     ctx.sample({'kind': 'light-trace', 'job': traces[0].get('_job'), 'trace': traces[0]['ev'][:10]})
+    tlc.finish_diagnosis(wd, 'LightStackTrace', 'LightStackTrace.cfg', traces, v)
     for i, info in sorted(v.rejected.items()):
         if info.get('line') is None:
             continue
